@@ -6,6 +6,7 @@ import (
 	"runtime"
 	"strings"
 	"sync"
+	"sync/atomic"
 	"time"
 
 	"github.com/quay/claircore/internal/matcher"
@@ -84,7 +85,24 @@ func (c *ctl) release(g int64) {
 	}
 }
 
-const eventTimeout = 10 * time.Second
+// eventTimeout bounds the wait for an event the released goroutine must
+// produce. After the first stuck schedule (already a disagreement between code
+// and machine) it is shortened: the remaining controlled runs only serve to
+// find a concrete failing input and must not cost ten seconds each.
+func eventTimeout() time.Duration {
+	if stucks.Load() > 0 {
+		return 1500 * time.Millisecond
+	}
+	return 10 * time.Second
+}
+
+// stucks counts controlled schedules in which the code did not take a step the
+// machine expects but completed once everything was released (a protocol
+// disagreement, not a hang). After a few of them the controlled runs stop; the
+// free-running scenarios and their oracles go on.
+var stucks atomic.Int32
+
+func tooManyStucks() bool { return stucks.Load() >= 4 }
 
 // await returns the oldest not yet consumed event that satisfies pred.
 func (c *ctl) await(pred func(pevent) bool) (pevent, bool) {
@@ -94,7 +112,7 @@ func (c *ctl) await(pred func(pevent) bool) (pevent, bool) {
 			return e, true
 		}
 	}
-	timeout := time.After(eventTimeout)
+	timeout := time.After(eventTimeout())
 	for {
 		select {
 		case e := <-c.events:
@@ -525,15 +543,16 @@ func controlled(r *hx.Run, rnd *hx.Rand, sc *scenario, lim int, injectCancel boo
 		// this is a disagreement between machine and code (reported on the
 		// protocol stream); if it does not, the call hangs.
 		close(c.abort)
-		hangs.Add(1)
 		select {
 		case res := <-done:
+			stucks.Add(1)
 			r.Op("p-stuck", "the implementation did not perform a step the machine expects: "+p.failure, true)
 			r.Count("proto:stuck-then-completed-freely")
 			for _, f := range oracle(w, res) {
 				r.Fail(f[0], "controlled-schedule (released after a stuck step): "+f[1]+" "+witness())
 			}
 		case <-time.After(callTimeout):
+			hangs.Add(1)
 			r.Fail("", "controlled-schedule: "+p.failure+"; the call did not return even after all goroutines were released "+witness())
 		}
 		return
